@@ -108,6 +108,9 @@ def check(rep, ctx):
             while d is not None:
                 if d.get("k") == "struct":
                     sub = W.bundle["classes"].get(d.get("class"))
+                    if sub is not None and sub["error"] and sub["error"].get("side") == "analysis":
+                        d = d.get("item") or d.get("inner")
+                        continue
                     ok = sub is not None and not sub["error"]
                     inner_fn = (pf["r_codec"] or {}).get("fn", "")
                     rep.check(R_BN, ok, construct=construct, stmt=f"nested {d.get('class')}",
